@@ -75,7 +75,7 @@ def func_case(emit, cid, rng, sample):
         wts[rng.choice(p, max(1, p // 3), replace=False)] = 0.0
         if not np.any(wts > 0):
             wts[0] = 1.0
-    r = float(rng.choice([0.05, 0.5, 0.9, 1.0]))
+    r = float(rng.choice([0.05, 0.5, 0.9, 1.0, 1e-4, 1e-7]))
     gam = float(rng.choice([1.5, 3.0, 20.0]))
     nz = wts > 0
     cases = [
@@ -179,12 +179,14 @@ def solve_case(emit, cid, target, rng, sample):
     from skglm.experimental.sqrt_lasso import SqrtLasso
     kind, a, b_ = (target.split("/") + [None])[:3]
     n, p = int(rng.integers(12, 40)), int(rng.integers(3, 14))
-    X = C.make_X(rng, n, p, str(rng.choice(["gauss", "ar", "shifted"])), rho=0.8)
-    X = X + rng.uniform(-2, 2, size=p)            # non-centred features
+    xk = str(rng.choice(["gauss", "ar", "shifted", "centered"]))
+    X = C.make_X(rng, n, p, xk, rho=0.8)
+    if xk != "centered":
+        X = X + rng.uniform(-2, 2, size=p)        # non-centred features (the centred kind: the usual preprocessing)
     sparse_in = bool(rng.integers(0, 2))
     icpt = bool(rng.integers(0, 2))
     tol = 1e-10
-    eps_above = float(rng.choice([1e-6, 1e-4, 1e-2]))
+    eps_above = float(rng.choice([1e-6, 1e-4, 1e-2, 4.0]))       # "at or above": also far above
     eps_below = float(rng.choice([1e-3, 1e-2, 1e-1]))
     groups = C.make_groups(rng, p, style=str(rng.choice(["contig", "perm"])))
     wts = rng.uniform(0.3, 2.5, size=p)
@@ -199,6 +201,9 @@ def solve_case(emit, cid, target, rng, sample):
     count = dfname == "Poisson"
     if multi:
         y = C.make_target(rng, X, "multi", n_tasks=int(rng.integers(1, 4))) + rng.uniform(-3, 3)
+        if rng.random() < 0.35:
+            y = y - y.mean(axis=0) + rng.uniform(0.5, 8.0, size=y.shape[1])      # every task mean on the same side
+            y = np.asfortranarray(y)
         refdf = R.RefDatafit("multitask")
     elif classif:
         y = C.make_target(rng, X, "pm1")
@@ -221,7 +226,7 @@ def solve_case(emit, cid, target, rng, sample):
     else:
         g0 = refdf.grad_w(X, y, w0, b0)
     p0 = int(rng.choice([1, 2, 10]))        # also working sets smaller than the number of unpenalised features
-    l1r = float(rng.choice([0.2, 0.6, 1.0]))
+    l1r = float(rng.choice([0.2, 0.6, 1.0, 1e-4]))
     gam = float(rng.choice([2.0, 5.0]))
     gw = rng.uniform(0.4, 2.0, size=len(groups))
     # ---- reference critical value and the repository's own alpha_max on the reference gradient
